@@ -146,8 +146,10 @@ Proof.
     cbn [print_branch] in *. rewrite app_length in Hf, Hg.
     destruct (atom_head a Ha) as (c & t & Ea & Hc).
     destruct g as [|g]; [inversion Hg|]. cbn [parse_branch].
-    rewrite <- app_assoc. rewrite Ea at 1. cbn [app]. unfold stop_char in Hc. rewrite Hc.
-    change (c :: t ++ print_branch b ++ rest) with ((c :: t) ++ print_branch b ++ rest). rewrite <- Ea.
+    rewrite <- app_assoc.
+    remember (print_atom a ++ print_branch b ++ rest) as s eqn:Es.
+    assert (Hhead : exists r0, s = c :: r0) by (rewrite Es, Ea; eexists; reflexivity).
+    destruct Hhead as [r0 Er0]. rewrite Er0. unfold stop_char in Hc. rewrite Hc. rewrite <- Er0, Es.
     rewrite (IHa Ha f (print_branch b ++ rest)) by lia.
     rewrite Ea in Hg. cbn [length] in Hg.
     rewrite (IHb Hb f g rest Hs) by lia. reflexivity.
